@@ -178,7 +178,7 @@ Inv_C13(e) ==
 
 \* C17: the generator's output is the non-empty LF-separated lines of its input
 IsLF(u) == u = 10
-GenExpected(input) == SelectSeq(SplitBy(input, IsLF, <<>>, <<>>), LAMBDA w : w # <<>>)
+GenExpected(input) == SelectSeq(SplitBy(input, IsLF), LAMBDA w : w # <<>>)
 Inv_C17(e) == e.op = "Gen" => /\ e.compiles /\ e.words = GenExpected(e.input)
                               /\ e.var = Golden.varscp[e.lang + 1] /\ e.file = Golden.filescp[e.lang + 1]
                               /\ (Has(e, "golden") /\ e.golden => e.words = List(e.lang) /\ e.words = e.committed)
@@ -215,6 +215,7 @@ Drift(e) ==
 \* The Layer S step an event stands for
 ProcStep(e) ==
     CASE e.op = "Reset" -> Restart
+      [] e.op = "Cut" -> /\ source' = e.source /\ UNCHANGED <<mapv, callVars>>      \* shard boundary: the harness names the source it installed
       [] e.op = "Check" -> IF Idle THEN CallCheck(e.in, e.lang) ELSE UNCHANGED procVars
       [] e.op = "Swap" -> IF Idle THEN SwapSource(e.new) ELSE UNCHANGED procVars
       [] e.op = "NewMnemonicCall" -> IF Idle THEN CallNewMnemonic(BigOK(e.n), IF e.n.fits THEN e.n.v ELSE 0, e.lang)
@@ -239,7 +240,7 @@ Step ==
           /\ bad' = IF Cardinality(bad) < 20 THEN bad \cup {<<l, p>> : p \in fails} ELSE bad
           /\ nbad' = nbad + Cardinality(fails)
           /\ known' = IF Cardinality(known) < 20 THEN known \cup {<<l, p>> : p \in kf} ELSE known
-          /\ drift' = IF Cardinality(drift) < 10 THEN drift \cup Drift(e) ELSE drift
+          /\ drift' = IF "DRIFT" \in Props /\ Cardinality(drift) < 10 THEN drift \cup Drift(e) ELSE drift
           /\ infra' = IF Cardinality(infra) < 10
                       THEN infra \cup ProtocolBreak(e) \cup (IF GroupInfra(e) THEN {<<l, "group members are not NFKD-equivalent">>} ELSE {})
                       ELSE infra
